@@ -1,4 +1,5 @@
 import LibInj.Proofs.TokenizeOK
+import LibInj.Proofs.FingerprintOK
 import LibInj.Properties.C12
 /-! # C01 — IsSQLi is total: it returns for every byte string, never panics
 
@@ -12,11 +13,17 @@ operation, loops carry explicit fuel. Proved for every input and every mode:
 * `isSQLi_total_of_passes` — if the five per-context passes return, `isSQLi` returns (the cascade
   itself adds no failure), and `isSQLi_nil`.
 
-`isSQLi_total_partial`: what is **not yet a theorem** is that `fold` (≈40 rewrite rules over the
-8-slot window, termination by the lexicographic measure of DESIGN §6) and `notWhitelist` (the two raw
-indexings `input[tv[0].len]`, `tv[1].val[0]`) never err; the full statement is `C01_statement`. That part
-rests on the correspondence (model and code agree on error status on every generated input, the model
-erring on none) and on the panic/timeout oracle on the real package. -/
+* `fold_safe`, `fingerprint_safe` — **no panic in `fold` / `sqliFingerprint`**: for every input and
+  every mode the folding stage (the 5-token special cases, the token-fetching loops, all two- and
+  three-token rewrite rules with their `val[0]`, `val[1]`, `val[:3]` reads, `merge`, the epilogue, the
+  fingerprint construction) performs no out-of-range index, slice or token-vector access; the only
+  failure the model can still report there is exhaustion of the main loop's fuel, i.e. non-termination.
+
+What is **not yet a theorem**: termination of `fold`'s main loop (lexicographic measure of DESIGN §6)
+and the raw indexings in `notWhitelist` (`input[tv[0].len]`, `input[tv[0].len+1]`, `tv[1].val[0]`); the
+full statement is `C01_statement`. That part rests on the correspondence (model and code agree on
+error status on every generated input, the model erring on none) and on the panic/timeout oracle on
+the real package. -/
 namespace LibInj.Properties.C01
 open LibInj LibInj.Sqli
 
@@ -34,6 +41,20 @@ theorem every_lexer_total (flags : Nat) (rest : Bytes) (c : UInt8) (h0 : rest[0]
     ∃ r, runP flags rest (dispatch c) = .ok r ∧ 1 ≤ r.next ∧ r.next ≤ rest.length := by
   obtain ⟨r, h1, a1, a2, _⟩ := runP_ok flags rest c h0
   exact ⟨r, h1, a1, a2⟩
+
+/-- **no panic in `fold`**, from any state satisfying the scanner invariant (in particular the
+initial one): the result is a token count `≤ 7` or fuel exhaustion -/
+theorem fold_safe (s : State) (hs : SInv s) :
+    (∃ n s', fold s = .ok (n, s') ∧ SInv s' ∧ s'.input = s.input ∧ n ≤ 7) ∨ fold s = .error .fuel :=
+  fold_ok s hs
+
+/-- **no panic in `sqliFingerprint`**, for every input and flag word -/
+theorem fingerprint_safe (input : Bytes) (flags : Nat) :
+    (∃ st, fingerprint input flags = .ok st ∧ FpInv input st) ∨ fingerprint input flags = .error .fuel :=
+  fingerprint_ok input flags
+
+/-- non-vacuity: the initial state satisfies the invariant the safety theorems start from -/
+example (input : Bytes) (flags : Nat) : SInv (sqliInit input flags) := sinv_init input flags
 
 theorem isSQLi_nil : isSQLi [] = .ok (false, []) := C12.isSQLi_nil
 
